@@ -44,7 +44,7 @@ pub struct Comment { pub author: ActorId }
 impl Comment { pub fn author(&self) -> (r: ActorId) ensures r == self.author { self.author } }
 pub struct Thread { pub comments: BTreeMap<CommentId, Option<Comment>> }
 pub mod thread { #[derive(Debug)] pub enum Error { Missing(crate::CommentId) } }
-pub struct Doc;
+pub struct Doc { pub opaque: u64 }
 /// the delegates of the identity document the action refers to
 pub uninterp spec fn delegate(doc: Doc, did: Did) -> bool;
 impl Doc {
